@@ -146,6 +146,17 @@ chk("C15", LOADTXT + " Here sequences of load() calls on ONE dataset (all ordere
     TRUST + " Densities assumed increasing and stored centres true so that predicates do not multiply the paths.",
     "symbolic execution of load() call sequences vs fresh datasets on symbolic files; SMT equality of the resulting terms", "DESIGN.md section 5 C15")
 
+chk("C04", "Bounded symbolic model checking in four parts, all on the real code: (a) structure of _hilbert3d on symbolic integer coordinates (the bit tests "
+    "fork, so the solver walks every cell): range, prefix property, injectivity; (b) _get_cpu_list with a symbolic bounding box and a symbolic increasing "
+    "key table: the search cubes cover the box and no CPU whose key interval meets a search cube's key range is left out (LIA/LRA); (c) "
+    "hilbert_cpu_list's derived box contains every cell centre of any level satisfying interval predicates with symbolic bounds; (d) end to end on "
+    "symbolic files (C01 machinery): value predicates with symbolic thresholds, position predicates with symbolic bounds, combined, explicit cpu_list, "
+    "Hilbert and non-Hilbert ordering: rows = rows of the full load satisfying all predicates, values identical.",
+    TRUST + " PARTIAL: the cell key is osyris' own _hilbert3d (no independent RAMSES offline); end-to-end outputs have ALIGNED decompositions (every stored "
+    "cell keyed inside its file's CPU interval) -- boxes smaller than a leaf's father cell at a domain boundary, and 2-D/1-D Hilbert decompositions "
+    "(RAMSES uses hilbert2d) are NOT covered (see DESIGN.md, suspected weaknesses).",
+    "symbolic execution of _hilbert3d/_get_cpu_list/hilbert_cpu_list and of selective loads on symbolic files; SMT (LIA, LRA)", "DESIGN.md section 5 C04")
+
 for pid in ["C01", "C03", "C04", "C05", "C06", "C07", "C08", "C09", "C10", "C11", "C12", "C13", "C14", "C15", "C16",
             "C17", "C18", "C19", "C20"]:
     NA.setdefault(pid, "check under construction in this round (solver-based harness designed in DESIGN.md section 5, not yet registered)")
